@@ -41,6 +41,28 @@ macro_rules! endian_checks {
             if (w == <$W>::from(partner)) != (v == partner) {
                 return Some("wrapper == wrapper");
             }
+            // the negated operators are separate trait methods (`ne`) and must agree
+            #[allow(clippy::nonminimal_bool)]
+            {
+                if (w != partner) != (v != partner) {
+                    return Some("wrapper != native");
+                }
+                if (partner != w) != (v != partner) {
+                    return Some("native != wrapper");
+                }
+                if (w != <$W>::from(partner)) != (v != partner) {
+                    return Some("wrapper != wrapper");
+                }
+            }
+            // a copy is the same value; Into agrees with to_native
+            let c = std::hint::black_box(w.clone());
+            if c.to_native() != v || c != w {
+                return Some("clone");
+            }
+            let n: $N = w.into();
+            if n != v {
+                return Some("into native");
+            }
             None
         }
     };
@@ -172,6 +194,10 @@ pub fn run(args: &Args) {
         ($W:ty, $N:ty, $name:expr) => {
             if size_of::<$W>() != size_of::<$N>() || align_of::<$W>() != align_of::<$N>() {
                 out::viol(&format!("C20/{}/layout", $name), jobj! {"size" => size_of::<$W>(), "align" => align_of::<$W>()});
+            }
+            let d = <$W>::default();
+            if d.to_native() != 0 || d != (0 as $N) || d.as_slice().iter().any(|b| *b != 0) {
+                out::viol(&format!("C20/{}/default", $name), jobj! {"default" => J::dbg(&d)});
             }
             out::key(&format!("{}|layout", $name), true);
         };
